@@ -1864,6 +1864,21 @@ fn session(ctx: &Ctx, kernel: &K) -> WorldResult {
                 };
                 if answers {
                     let k = kernel.clone();
+                    {
+                        // keys typed around the answer: one while position() waits (it has to
+                        // keep it for the application) and one that reaches the tty right
+                        // behind the answer, in the same read
+                        let mut kk = k.borrow_mut();
+                        if !kk.lone_escape && kk.src.chance(1, 2) {
+                            let answer_at = kk.drain_latency + kk.reply_latency;
+                            for delay in [kk.src.draw(50) as u64 * US, answer_at + kk.src.draw(30) as u64 * US] {
+                                let c = TYPED[typed_total % TYPED.len()];
+                                typed_total += 1;
+                                kk.schedule(delay, Ev::Input(vec![c], "user"));
+                            }
+                            kk.src.probe("keys-typed-around-position-answer");
+                        }
+                    }
                     k.borrow_mut().in_poll = true;
                     // position() = execute(CursorGet) + execute(DeviceAttrs) + poll(None) until DA1
                     let mut bytes = Vec::new();
